@@ -95,3 +95,11 @@ add('C03', 'Hypothesis generated sources x windows x break choices + oracles: an
     'least-squares fit of the same form. Exploration only.',
     'Trusted: vf/ref.py basis functions, StatMech Cp/H/S (C01); reference least squares uses the library\'s own split/weighting; NASA-9 intervals keep >= 9 data points.',
     'DESIGN.md 3/C03')
+add('C05', 'Hypothesis generated species collections with adversarial names + write/read round-trip and an independent fixed-column reference parser of the Chemkin thermo card',
+    'Collections of 1-40 NASA-7 species with names containing END / THERMO, leading digits, 15 printable characters, 1-4 elements with two-letter symbols and counts up to 999 (also as '
+    'integral floats, zero counts), any one-character phase, temperatures up to 9999.9 K and coefficients 0 or 1e-30..1e30 are written (file or string, list or dict, date/notes, '
+    'comment block, supplementary data) and (a) parsed by a reference fixed-column reader - 80 columns, record number in column 80, five 15-character fields, composition in columns '
+    '25-44, phase in column 45 - and (b) read back with read_thermdat in every format: same number, order, names, phases, element counts, temperatures to 0.05 K and all 14 coefficients '
+    'to 9 significant digits; any raise or changed count is a failure. Exploration only.',
+    'Trusted: the reference card parser in vf/p05.py; names without blanks and not starting with "!".',
+    'DESIGN.md 3/C05')
